@@ -140,7 +140,7 @@ def run_history(h, ctx, farmer=None):
                         crop = xyz.Crop(fn=f, name='t', parent_dir=pd, batchsize=op.get('bs'), num_batches=op.get('nb'),
                                         shuffle=(op.get('shuffle') or False))
                     elif k == 'reload':
-                        crop = xyz.Crop(name='t', parent_dir=pd)
+                        crop = xyz.Crop(name='t', parent_dir=pd, **({'autoload': False} if op.get('autoload') is False else {}))
                     elif k == 'emptydir':
                         # the bare directory skeleton without an info file (left by an interrupted first sow, or made by hand)
                         os.makedirs(os.path.join(loc, 'batches'), exist_ok=True)
